@@ -312,3 +312,66 @@ def flow_mod_releases_its_buffer(b):
 import contracts.c13_replies as _R
 unit(P, target=SW + "SoftwareSwitchBase._rx_set_config / _rx_get_config_request",
      name="the_configured_miss_length_is_what_set_config_sent")(_R.get_and_set_config)
+
+
+# ---------------------------------------------------------------- a frame sent to the controller by an ACTION is buffered like a miss
+# (added 2026-09-25 after seeded change C18_8 stored it with the output port 0xfffd as its ingress port: the packet-in was
+# right, but releasing that buffer with FLOOD / ALL / IN_PORT actions then applied them 'to another frame' - the ingress port
+# was emitted on, output(IN_PORT) emitted nothing)
+
+def _ghost_args(name):
+  def g(I, st, f, args, kws):
+    st.ghost[name + ".n"] = st.ghost.get(name + ".n", 0) + 1
+    st.ghost[name + ".args"] = tuple(args[1:])
+    st.ghost[name + ".kw"] = dict(kws)
+  return g
+
+
+@unit(P, target=SW + "SoftwareSwitchBase._output_packet (OFPP_CONTROLLER)")
+def output_to_the_controller_buffers_the_frame_with_its_ingress_port(b):
+  sw, lst, maxb, pool = build(b)
+  in_port = b.int("in_port", 0, 0xff00)
+  max_len = b.int("max_len", 0, 65535)
+  bid = b.int("free_buffer_id", 1, 1000)
+  full = b.bool("pool_is_full")
+  from pox.lib.packet.ethernet import ethernet
+  ethernet()                      # (fills the class-level parser registry natively, once)
+  pkt = b.new(ethernet)
+  calls = {}
+  got = {}
+  if b.mode == "sym":
+    from pyvc.values import Union
+    import z3
+    ret = Union([(z3.Not(full), bid), (full, None)])
+    calls[SW + "SoftwareSwitchBase._buffer_packet"] = CallSpec("contract", ghost=_ghost_args("buffer"), returns=lambda I, st, a, k: ret,
+                                                              envelope="_buffer_packet: the units above")
+    calls[SW + "SoftwareSwitchBase.send_packet_in"] = CallSpec("contract", ghost=_ghost_args("pin"), envelope="send_packet_in: packet_in_contents")
+  else:
+    ret = None if full else bid
+    def buf(packet, in_port=None):
+      got["buffer"] = (1 + got.get("buffer", (0,))[0], (packet, in_port), {})
+      return ret
+    def pin(*a, **kw):
+      got["pin"] = (1 + got.get("pin", (0,))[0], a, kw)
+    b.set(sw, "_buffer_packet", buf)
+    b.set(sw, "send_packet_in", pin)
+  def call(name):
+    if b.mode == "sym":
+      return (G.get(name + ".n") or 0, G.get(name + ".args"), G.get(name + ".kw"))
+    return got.get(name, (0, None, None))
+  def pin_arg(i, kwname):
+    n, a, kw = call("pin")
+    return kw[kwname] if kwname in kw else a[i]
+  return Case(SoftwareSwitchBase._output_packet, [sw, pkt, of.OFPP_CONTROLLER, in_port, max_len], calls=calls, raises={}, ensures={
+    "the_frame_is_buffered_once_together_with_the_port_it_CAME_IN_on":
+      lambda res: call("buffer")[0] == 1 and call("buffer")[1][0] is pkt and call("buffer")[1][1] == in_port,
+    "one_packet_in_names_that_buffer_the_ingress_port_and_the_requested_length":
+      lambda res: call("pin")[0] == 1 and pin_arg(0, "in_port") == in_port and pin_arg(1, "buffer_id") == ret
+      and pin_arg(2, "packet") is pkt and pin_arg(99, "reason") == of.OFPR_ACTION and pin_arg(99, "data_length") == max_len,
+  })
+
+
+# the miss path hands send_packet_in the WHOLE frame, the id it was buffered under and miss_send_len (so that the packet-in can
+# report the true total length): the C12 unit on rx_packet, shared (seeded change C18_9)
+import contracts.c12_datapath as _D12   # noqa (c12 imports this module near its end, after the unit below is defined)
+unit(P, target=SW + "SoftwareSwitchBase.rx_packet (table miss)", name="a_miss_hands_the_whole_frame_to_the_packet_in")(_D12.receive_rules_and_counters)
